@@ -100,8 +100,13 @@ impl C11 {
                 );
                 None
             }
-            Ok(Err(_)) => {
+            Ok(Err(e)) => {
                 cx.count("rejected");
+                // the error itself must be usable: rendering it for a person ({} and {:?}) is part of "building the error report"
+                match guard(|| (format!("{}", e).len(), format!("{:?}", e).len(), e.to_string().len())) {
+                    Err(c) => cx.violation(&format!("{}|error-rendering-panic|{}|{}", class, c.site(), if c.msg.contains("char boundary") { "slice not on a char boundary".to_string() } else { c.norm_msg() }), json!({"panic": c.msg, "at": format!("{}:{}", c.file, c.line), "text": String::from_utf8_lossy(text).chars().take(1500).collect::<String>()})),
+                    Ok(_) => cx.count("errors_rendered"),
+                }
                 Some(false)
             }
             Ok(Ok(lib)) => {
